@@ -1089,7 +1089,11 @@ class ComplexModelBase(ModelBase):
         fti = cls.get_flat_type_info(cls)
 
         retval = TypeInfo()
-        tags = set()
+
+        # the classes on the path from the root to an entry: a class is not
+        # expanded inside itself (recursive definitions), but it is expanded
+        # everywhere else it occurs.
+        tags = frozenset((cls,))
 
         queue = deque()
         if prot is None:
@@ -1102,6 +1106,7 @@ class ComplexModelBase(ModelBase):
                     (sub_name,),
                     (_is_array(v),),
                     cls,
+                    tags,
                 ))
 
         else:
@@ -1117,12 +1122,11 @@ class ComplexModelBase(ModelBase):
                     (sub_name,),
                     (_is_array(v),),
                     cls,
+                    tags,
                 ))
 
-        tags.add(cls)
-
         while len(queue) > 0:
-            keys, v, prefix, is_array, parent = queue.popleft()
+            keys, v, prefix, is_array, parent, tags = queue.popleft()
             k = keys[-1]
             if issubclass(v, Array) and v.Attributes.max_occurs == 1:
                 v, = v._type_info.values()
@@ -1138,7 +1142,7 @@ class ComplexModelBase(ModelBase):
                 )
 
                 if not (v in tags):
-                    tags.add(v)
+                    tags = tags | frozenset((v,))
                     if prot is None:
                         for k2, v2 in v.get_flat_type_info(v).items():
                             sub_name = k2
@@ -1147,7 +1151,8 @@ class ComplexModelBase(ModelBase):
                                 v2,
                                 prefix + (sub_name,),
                                 is_array + (_is_array(v),),
-                                v
+                                v,
+                                tags,
                             ))
 
                     else:
@@ -1163,6 +1168,7 @@ class ComplexModelBase(ModelBase):
                                 prefix + (sub_name,),
                                 is_array + (_is_array(v),),
                                 v,
+                                tags,
                             ))
 
             else:
